@@ -373,7 +373,7 @@ pub fn get_repeated_file_path_from_diff_line(line: &str) -> Option<String> {
     if let Some(line) = line.strip_prefix("diff --git ") {
         let line: Vec<&str> = line.graphemes(true).collect();
         let midpoint = line.len() / 2;
-        if line[midpoint] == " " {
+        if line.get(midpoint) == Some(&" ") {
             let first_path = _parse_file_path(&line[..midpoint].join(""), true);
             let second_path = _parse_file_path(&line[midpoint + 1..].join(""), true);
             if first_path == second_path {
@@ -385,7 +385,7 @@ pub fn get_repeated_file_path_from_diff_line(line: &str) -> Option<String> {
 }
 
 fn remove_surrounding_quotes(path: &str) -> &str {
-    if path.starts_with('"') && path.ends_with('"') {
+    if path.len() >= 2 && path.starts_with('"') && path.ends_with('"') {
         // Indexing into the UTF-8 string is safe because of the previous test
         &path[1..path.len() - 1]
     } else {
